@@ -65,6 +65,7 @@ idA == Id("req.http.A")      idB == Id("req.http.B")     idC == Id("req.http.C-D
 sA  == Str("a", "\"a\"")     sB  == Str("b", "\"b\"")    sRe == Str("^/x", "\"^/x\"")
 sEsc == Str("c\"d e", "\"c%22d%20e\"")                   \* %-escapes are decoded in the value, kept in the source
 sLong == Str("l\"q", "{\"l\"q\"}")                       \* long string: no escapes
+sML == Str("x\n y", "{\"x\n y\"}")                       \* long string over two lines
 sWide == Str("wwwwwwwwwwwwwwww", "\"wwwwwwwwwwwwwwww\"")
 i10 == Int("10", "10")       iHex == Int("26", "0x1a")   f15 == Flt("1.5", "1.5")    fExp == Flt("1000", "1e3")
 r10 == RTime("10s")          bT == Bool(TRUE)
@@ -77,7 +78,7 @@ Not   == Prefix("!", idB)
 
 \* value expressions (right-hand sides, arguments)
 ValExprs == {
-  sA, idB, i10, iHex, f15, fExp, r10, bT, sEsc, sLong,
+  sA, idB, i10, iHex, f15, fExp, r10, bT, sEsc, sLong, sML,
   Cat(sA, idB, TRUE), Cat(sA, idB, FALSE), Cat(Cat(sA, idB, TRUE), sB, FALSE),
   Cat(Cat(Cat(Cat(sWide, idA, TRUE), sWide, TRUE), idB, TRUE), sWide, TRUE),      \* wraps at line_width 20/40
   Cat(sA, FCallX("std.itoa", <<i10>>), TRUE),
@@ -100,6 +101,8 @@ CondExprs == {
   Infix("||", Group(Infix("&&", Group(Cmp), Not)), Prefix("!", Group(Group(Mat)))),
   Infix("&&", Infix("&&", Infix("<", Id("var.i"), i10), Infix(">=", Id("var.i"), iHex)), Infix("<=", Id("var.f"), f15)),
   Infix("==", idA, Cat(sA, idB, TRUE)),
+  Infix("==", idA, sML),
+  Infix("&&", Group(Infix("&&", Cmp, Mat)), Not),                \* a group that is redundant for the grouping
   Infix("||", Infix("&&", Infix("==", idA, sWide), Infix("~", idB, sWide)), Infix("!=", idC, sWide))   \* wraps
 }
 SomeConds == {Cmp, Infix("&&", Cmp, Not)}
@@ -238,7 +241,8 @@ Stmts ==
   \cup {FCall("std.collect", <<idA>>), FCall("std.collect", <<idA, sA>>), FCall("fn.none", <<>>)}
   \cup {ErrorS(NoneObj, NoneObj), ErrorS(Int("401", "401"), NoneObj), ErrorS(Int("401", "401"), sA),
         ErrorS(Id("var.code"), NoneObj), ErrorS(Int("601", "601"), Cat(sA, idB, TRUE)),
-        ErrorS(FCallX("std.atoi", <<sA>>), NoneObj)}
+        ErrorS(FCallX("std.atoi", <<sA>>), NoneObj),
+        ErrorS(Id("var.code"), sA), ErrorS(FCallX("std.atoi", <<sA>>), Cat(sA, idB, FALSE))}      \* code kind x argument
   \cup {ValS("log", "log", v) : v \in SomeVals}
   \cup {ValS("synthetic", "synthetic", v) : v \in SomeVals \cup {sLong}}
   \cup {ValS("synthetic64", "synthetic.base64", sA)}
@@ -364,10 +368,13 @@ UnitDocs ==
 SortPool == <<Sub("vcl_deliver", <<>>, "", <<Esi>>), Sub("helper", <<>>, "", <<SetA>>), Sub("vcl_recv", <<>>, "", <<LogA>>),
               Table("t1", "", <<TProp(sA, sB, TRUE)>>), Acl("a1", <<Cidr(FALSE, "10.0.0.1", "")>>), Backend("b1", <<pHost>>),
               Import("geo"), Sub("aaa", <<>>, "", <<Restart>>), Acl("a0", <<>>)>>
+SortPool2 == SortPool \o <<Empty("penaltybox", "p1"), Empty("ratecounter", "r1"), Director("d1", "random", <<>>), Include("mod", "\"mod\"")>>
 Perms(n, k) == {s \in [1..k -> 1..n] : \A i, j \in 1..k : i # j => s[i] # s[j]}
+\* pairs over all 13 declarations, triples over the first 9
 MultiDocs(k) ==
-  {[fam |-> "multi", focus |-> "vcl", ds |-> [i \in 1..k |-> IF bl[i] THEN Blank(SortPool[p[i]]) ELSE SortPool[p[i]]]] :
-     p \in Perms(Len(SortPool), k), bl \in [1..k -> BOOLEAN]}
+  LET pool == IF k = 2 THEN SortPool2 ELSE SortPool
+  IN {[fam |-> "multi", focus |-> "vcl", ds |-> [i \in 1..k |-> IF bl[i] THEN Blank(pool[p[i]]) ELSE pool[p[i]]]] :
+        p \in Perms(Len(pool), k), bl \in [1..k -> BOOLEAN]}
 
 GroupPool == <<SetA, LogA, SetS(idC, "=", Cat(sA, idB, TRUE)), Esi>>
 GroupDocs(k) ==
